@@ -26,6 +26,7 @@ type Env struct {
 	inQuant  int
 	depth    int
 	callee   *FuncSpec // when evaluating a callee contract at a call site
+	prev     *State    // loop step clauses: state at the head of the current iteration
 }
 
 func (st *State) newEnv(fr *Frame, res []Value) *Env {
@@ -740,6 +741,16 @@ func (env *Env) call(e *Expr) Value {
 				// in old(), names denote entry values
 				sub.post = true
 			}
+			v := sub.eval(args[0])
+			env.defs = append(env.defs, sub.defs[len(env.defs):]...)
+			return v
+		case "prev":
+			if env.prev == nil {
+				panic(specErr("prev() outside a loop step clause"))
+			}
+			sub := *env
+			sub.st = env.prev
+			sub.vars = env.vars
 			v := sub.eval(args[0])
 			env.defs = append(env.defs, sub.defs[len(env.defs):]...)
 			return v
